@@ -597,6 +597,26 @@ func runC16w(toks []string) string {
 			}
 		}
 		return "res=true ms=10"
+	case "closedtiny":
+		// objects closed BEFORE the call, tiny / zero / negative timeouts: the close happened before the timeout, so every
+		// call must return true (with both the closed channel and the timer ready a select would pick at random)
+		falses := 0
+		for _, d := range []time.Duration{0, -time.Second, time.Nanosecond, time.Microsecond, 20 * time.Microsecond} {
+			for i := 0; i < 8000; i++ {
+				var w loom.WaitClose
+				if i%2 == 0 {
+					w.C()
+				}
+				w.Close(nil)
+				if !w.WaitUtil(d) {
+					falses++
+				}
+			}
+		}
+		if falses > 0 {
+			return fmt.Sprintf("res=false ms=%d", falses)
+		}
+		return "res=true ms=0"
 	case "zero":
 		wait(0)
 	case "neg":
